@@ -281,3 +281,13 @@ Proof.
   - destruct S as ((Hb & _) & _). intros rest. unfold data_verdict_ok. cbn [N.eqb Pos.eqb].
     apply N.ltb_lt. rewrite szof_app. lia.
 Qed.
+
+Theorem handoff_msg_sound fuel o dc r trace msg sz seen r' :
+  rstate_ok r -> data_loop fuel o dc r trace = (D_eod msg sz seen, r') -> handoff_msg_ok seen msg = true.
+Proof.
+  intros Hok H. pose proof (data_loop_spec fuel o dc r trace _ r' Hok H) as S. cbn in S.
+  destruct S as (Hm & _). unfold handoff_msg_ok. rewrite Hm, app_length.
+  apply andb_true_intro. split; [apply Nat.leb_le; lia|].
+  replace (length trace + length (stored seen) - length (stored seen)) with (length trace) by lia.
+  rewrite skipn_app, skipn_all, Nat.sub_diag. cbn [skipn app]. apply bytes_eqb_eq. reflexivity.
+Qed.
